@@ -22,7 +22,7 @@ import (
 // Whatever the bytes are, an accepted registration is the one and only one,
 // also across restarts.
 func TestC07ArbitraryKeyBytes(t *testing.T) {
-	ev.Rule("C07(key bytes): the first registration carries arbitrary 32 bytes as GCA key (random, a repeated byte, a genuine key with one bit flipped, a genuine key), validly signed by the temporary key; then 1-2 restarts, a second registration (valid key, signed by the temporary key) and an equipment authorization signed by that second key. Oracle, whichever way the server treats the bytes: if the first registration answered 200 the server is registered with exactly those bytes after every restart, the second registration is refused and the second key has no authority; if it was refused the server stays unregistered and the second registration is the one that succeeds. Non-trivial = first key is not a genuine public key; distinct by key bytes")
+	ev.Rule("C07(key bytes): the first registration carries arbitrary 32 bytes as GCA key (random, a repeated byte incl. line feed / carriage return / space, all zero, a genuine key with one bit flipped, a genuine key whose last 1-3 bytes are zero or white space, a genuine key), validly signed by the temporary key; then 1-2 restarts, a second registration (valid key, signed by the temporary key) and an equipment authorization signed by that second key. Oracle, whichever way the server treats the bytes: if the first registration answered 200 the server is registered with exactly those bytes after every restart, the second registration is refused and the second key has no authority; if it was refused the server stays unregistered and the second registration is the one that succeeds. Non-trivial = first key is not a genuine public key; distinct by key bytes")
 	server.VerifSetStepping(true)
 	rapid.Check(t, func(t *rapid.T) {
 		ev.Eval(1)
@@ -37,12 +37,21 @@ func TestC07ArbitraryKeyBytes(t *testing.T) {
 		}
 		defer func() { S.Close() }()
 		var k [32]byte
-		class := rapid.SampledFrom([]string{"random", "repeated", "flipped", "genuine"}).Draw(t, "keyClass")
+		class := rapid.SampledFrom([]string{"random", "repeated", "flipped", "genuine", "blank", "tail"}).Draw(t, "keyClass")
 		switch class {
+		case "blank":
+			// 32 zero bytes: the value a key variable has before anything is registered
+		case "tail":
+			// a genuine key whose last bytes are what text handling strips or pads
+			k = keyFor("c07-first").Pub
+			b := rapid.SampledFrom([]byte{0x00, 0x0a, 0x0d, 0x20, 0x09}).Draw(t, "tailByte")
+			for i, n := 0, rapid.IntRange(1, 3).Draw(t, "tailLen"); i < n; i++ {
+				k[31-i] = b
+			}
 		case "random":
 			copy(k[:], rapid.SliceOfN(rapid.Byte(), 32, 32).Draw(t, "keyBytes"))
 		case "repeated":
-			b := rapid.SampledFrom([]byte{0x01, 0x02, 0x03, 0x7f, 0x80, 0xfe, 0xff}).Draw(t, "keyByte")
+			b := rapid.SampledFrom([]byte{0x01, 0x02, 0x03, 0x0a, 0x0d, 0x20, 0x7f, 0x80, 0xfe, 0xff}).Draw(t, "keyByte")
 			for i := range k {
 				k[i] = b
 			}
